@@ -136,7 +136,8 @@ func EnvRefString(t *tape.Tape, label string, vars []string) string {
 		case 8:
 			b.WriteString("${" + v + ":0:2}")
 		case 9:
-			b.WriteString(" " + Word(t, label) + " ")
+			// escapes that are not followed by an identifier
+			b.WriteString([]string{"$$", "$$1", "$$(hostname)", "kill -0 $$ ", "$$/", "a$$", "$$$$" + v, " " + Word(t, label) + " "}[t.Draw(8, label+":bare-escape")])
 		}
 		if t.Draw(3, label+":glue") == 0 {
 			b.WriteString([]string{"-", "/", " ", "_", "."}[t.Draw(5, label+":gluec")])
